@@ -86,6 +86,17 @@ def _exec_one(scen, case, seed, choices, last=True):
 
 def _child_exec(scen, jobs, wfd):
     out = []
+    # billiard creates a temporary directory per (simulated) process for heap arenas and listener addresses and
+    # removes it from an exit handler; this child leaves through os._exit, so it gets a scratch directory of its own
+    # that is removed as a whole
+    import shutil
+    import tempfile
+    scratch = None
+    try:
+        scratch = tempfile.mkdtemp(prefix='billiard-verif-run-', dir='/var/tmp')
+        tempfile.tempdir = scratch
+    except OSError:
+        scratch = None
     try:
         faulthandler.enable()
         for n, (case, seed, choices) in enumerate(jobs):
@@ -104,6 +115,8 @@ def _child_exec(scen, jobs, wfd):
         while off < len(data):
             off += os.write(wfd, data[off:off + 65536])
     finally:
+        if scratch:
+            shutil.rmtree(scratch, ignore_errors=True)
         os._exit(0)
 
 
